@@ -38,6 +38,8 @@ pub enum Dg {
     /// placeholder, replaced before use by a StoreQuery for <a name-like string of the sources> . <suffix of a name the
     /// store's history mentions> (choice of string, of name, of the number of leading labels dropped, QTYPE)
     DictQuery(u16, u16, u8, u16),
+    /// C01's arrangements of special records (A, OPT, OPT with an option, CNAME, empty RDATA): kinds, section, extra count, response?
+    Arrangement(Vec<u8>, u8, u16, bool),
     /// a pointer graph of C01 (chains, self / forward / absolute pointers, pointers into fixed fields, stray tail octets)
     Graph(super::c01::Graph),
 }
@@ -86,6 +88,7 @@ pub fn render_dg(d: &Dg) -> Vec<u8> {
             m
         }
         Dg::DictQuery(..) => vec![],
+        Dg::Arrangement(kinds, section, extra, response) => super::c01::render_arrangement(kinds, *section as usize, *extra, *response),
         Dg::Graph(g) => {
             let mut m = super::c01::render_graph(g);
             m.truncate(8900);
@@ -114,6 +117,7 @@ fn dg_strategy() -> BoxedStrategy<Dg> {
         1 => (any::<u16>(), gen::u8b()).prop_map(|(n, f)| Dg::Big(n, f)),
         2 => (vec(proptest::sample::select(vec![0u8, 1, 2, 3, 12, 13, 0x3f, 0x40, 0x80, 0xc0, 0xff, b'a']), 2..=5), any::<bool>()).prop_map(|(b, r)| Dg::Spanning(b, r)),
         2 => (any::<u16>(), any::<u16>(), 0u8..3, proptest::sample::select(vec![255u16, 12, 33, 1])).prop_map(|(a, b, c, d)| Dg::DictQuery(a, b, c, d)),
+        2 => (vec(0u8..5, 0..=5), 1u8..=3, prop_oneof![3 => Just(0u16), 1 => Just(1u16), 1 => Just(0xff00u16)], any::<bool>()).prop_map(|(k, s, e, r)| Dg::Arrangement(k, s, e, r)),
         2 => super::c01::graph_strategy(Tier::Quick).prop_map(|mut g| { g.repeat_last = g.repeat_last.min(300); Dg::Graph(g) }),
         4 => vec((super::c13::coll_record(), proptest::sample::select(vec![255u16, 1, 33, 16]), any::<bool>()), 1..3)
             .prop_map(|v| Dg::StoreQuery(v.into_iter().map(|(r, qtype, unicast)| AQuestion { name: r.name, qtype, qclass: 255, unicast }).collect())),
